@@ -7,9 +7,11 @@ Import ListNotations.
 
 (* 1. whenever A[ix] returns a value (entry, vector or sub-operator), it is the same indexing expression applied to
       the represented matrix den e - for every operator tree, every index form of the statement, with the flags of the
-      pinned tree as well as repaired (the list form: once it multiplies self instead of self.A) *)
+      pinned tree as well as repaired (the list form: once it multiplies self instead of self.A).
+      sym_ok: either transpose() builds a Transpose, or it returns the operator itself (isa(SelfAdjoint), read off the
+      implementation) and the represented matrix is indeed symmetric *)
 Theorem C20_getitem_den : forall (R : Type) (RR : Ring R) (CR : CRing R) fl (e : op (R:=R)) q,
-  wf e = true -> listed q = true -> same_len q -> (f_list_dotA fl = false \/ is_list_pair q = false) ->
+  wf e = true -> sym_ok fl e -> listed q = true -> same_len q -> (f_list_dotA fl = false \/ is_list_pair q = false) ->
   (forall er, getitem fl e q <> Err er) ->
   exists s, spec_index (den e) (fst (shape e)) (snd (shape e)) q = Some s /\ res_matches e (getitem fl e q) s.
 Proof. intros R RR CR. exact getitem_den. Qed.
@@ -38,7 +40,7 @@ Print Assumptions C20_slices_acts.
 (* 3. totality on the repaired tree (and already now on square operators for the row forms): every index expression
       numpy accepts on the represented matrix is accepted *)
 Theorem C20_getitem_total : forall (R : Type) (RR : Ring R) (CR : CRing R) fl (e : op (R:=R)) q s,
-  wf e = true -> listed q = true ->
+  wf e = true -> sym_ok fl e -> listed q = true ->
   f_list_dotA fl = false -> f_arr_cpu fl = false -> f_list_empty_err fl = false ->
   (f_row_len_cols fl = false \/ fst (shape e) = snd (shape e)) ->
   spec_index (den e) (fst (shape e)) (snd (shape e)) q = Some s -> forall er, getitem fl e q <> Err er.
@@ -94,6 +96,13 @@ Theorem C20_getitem_empty_lists_refuted :
                       /\ getitem pinned e q = Err EValue.
 Proof. exact getitem_empty_lists_refuted. Qed.
 Print Assumptions C20_getitem_empty_lists_refuted.
+Theorem C20_getitem_T_self_refuted :
+  exists (e : zop), wf e = true /\ getitem tself e (One (IInt 0)) = Vec [z 1; z 3]
+     /\ spec_index (den e) (fst (shape e)) (snd (shape e)) (One (IInt 0)) = Some (SVec [z 1; z 2])
+     /\ getitem repaired e (One (IInt 0)) = Vec [z 1; z 2]
+     /\ getitem tself e (Two (IInt 0) (IInt 1)) = Scalar (z 2) /\ getitem tself e (Two (ISlice full) (IInt 1)) = Vec [z 2; z 4].
+Proof. exact getitem_T_self_refuted. Qed.
+Print Assumptions C20_getitem_T_self_refuted.
 Theorem C20_sliced_duplicate_indices_refuted :
   exists (e : zop) rs cs (X : arr (R:=zi)), wf e = true /\ getitem repaired e (Two (ISlice full) (IArr [1; 1]%Z)) = SubOp (Sliced e rs cs)
      /\ nr X = length cs /\ dat (matmat (Sliced e rs cs) X) 0%nat 0%nat = z 10
